@@ -41,6 +41,7 @@ fn block() -> impl Strategy<Value = Vec<HOp>> {
         3 => (0u8..4, resolve()).prop_map(|(branch, resolve)| vec![HOp::Merge { branch, resolve }]),
         4 => preserving_op().prop_map(|o| vec![o]),
         2 => ai_edit_op().prop_map(|o| vec![o, HOp::Commit]),
+        2 => Just(vec![HOp::ConvergeRenames]),
     ]
 }
 
